@@ -56,10 +56,22 @@ def flow_components(payload: bytes, ipv6: bool = False, vpn: bool = False):
                     raise ValueError('truncated offset')
                 off = payload[i]
                 i += 1
-            nb = (bits + 7) // 8
+            # RFC 8956 3.1: <length, offset, pattern, padding>, "the length of the pattern is defined by the number of bits
+            # needed for the difference between the length and the offset values"; the component is malformed unless
+            # offset < length < 129 or length = offset = 0.  (The first version of this function read ceil(length / 8)
+            # octets whatever the offset: it was the code's reading, not the RFC's.)  The prefix handed back is the
+            # ADDRESS prefix (the pattern put back at bit `offset`), so that both forms compare with the text.
+            if ipv6 and (bits > 128 or (off >= bits and not (off == 0 and bits == 0))):
+                raise ValueError(f'malformed ipv6 prefix component: length {bits} offset {off}')
+            pbits = bits - off
+            nb = (pbits + 7) // 8
             if i + nb > n:
                 raise ValueError('truncated prefix bytes')
-            out.append((t, bits, off, bytes(payload[i : i + nb])))
+            raw = bytes(payload[i : i + nb])
+            if off:
+                pattern = int.from_bytes(raw, 'big') >> (nb * 8 - pbits)
+                raw = (pattern << (128 - bits)).to_bytes(16, 'big')[: (bits + 7) // 8]
+            out.append((t, bits, off, raw))
             i += nb
         else:
             ops = []
@@ -95,7 +107,15 @@ def flow_encode(components, rd: bytes = None, ipv6: bool = False) -> bytes:
         t = comp[0]
         if t in PREFIX_TYPES:
             _, bits, off, pfx = comp
-            body += bytes([t, bits]) + (bytes([off]) if ipv6 else b'') + bytes(pfx[: (bits + 7) // 8])
+            if ipv6 and off:
+                # RFC 8956 3.1: the pattern is the (length - offset) bits after the skipped ones, padded to an octet
+                pbits = max(bits - off, 0)
+                nb = (pbits + 7) // 8
+                address = int.from_bytes(bytes(pfx).ljust(16, b'\0')[:16], 'big')
+                pattern = ((address << off) & ((1 << 128) - 1)) >> (128 - pbits) if pbits else 0
+                body += bytes([t, bits, off]) + (pattern << (nb * 8 - pbits)).to_bytes(nb, 'big')
+            else:
+                body += bytes([t, bits]) + (bytes([off]) if ipv6 else b'') + bytes(pfx[: (bits + 7) // 8])
         else:
             body += bytes([t])
             ops = comp[1]
